@@ -195,9 +195,12 @@ Definition astep (c : config) (a : astate) (o : op) (cls aflag : Z) : list astat
                                mkAstate (holders a1) (nset (aconns a1) i (mkAconn (ac_ep ac) false None (ac_open ac) (ac_adm ac))) (astreams a1) in
                 if ac_allow ac && negb still then
                   (* refused while being moved from the allow-listed to the standard
-                     scopes: still where it was, fully moved, or released from the
-                     allow-listed pair and refused by system/transient *)
-                  [a; moved [System; Transient]; moved []]
+                     scopes (isAllowlisted is cleared first): released from the
+                     allow-listed pair and refused by system/transient - the documented
+                     intermediate state "charged to no scope", which the next SetPeer
+                     repairs -, or fully moved and refused by the peer scope, or (an
+                     atomic transfer) still where it was *)
+                  [moved []; moved [System; Transient]; a]
                 else
                   (* a connection that an earlier refused transfer left charged to no
                      scope is charged to system + transient again before the peer
